@@ -4,7 +4,7 @@
    collapse) are compiled and executed on every generated expression, under every scoping, and compared with this
    denotation. MapReduce and the debug operators are not modelled; stacking is covered under C12. *)
 Require Import List Bool ZArith.
-From FV Require Import Lib.Sym Model.C03 Proofs.C03.
+From FV Require Import Lib.Sym Model.C01 Model.C01Compile Model.C03 Proofs.C03 Model.C03Graph Proofs.C03GraphEval Proofs.C03GraphWf Proofs.C03GraphCompile.
 Import ListNotations.
 
 (* any nesting / explicit scoping of the same operator sequence denotes the same train and apply chains *)
@@ -31,6 +31,34 @@ Theorem C03_sequential : forall e s,
   /\ List.length (persisted (den e s)) = List.length (persisted s) + stateful_applies (flatten e).
 Proof. intros e s. split; [apply den_flatten|rewrite den_flatten; apply persisted_count]. Qed.
 Print Assumptions C03_sequential.
+
+(* the task graph an expression denotes (Model/C03Graph.v: per operator a worker group on the label, apply and train
+   path - trained fork first, then the applied member; the mapper's train-path member another fork of the apply group)
+   evaluates, node by node as C01 evaluates graphs, to the expression denotation at the three tails *)
+Theorem C03_graph_denotation : forall e a t sl,
+  let gs := build e (gsource a t sl) in let s := den e (source a t sl) in
+  value (geval None (gnodes gs)) (pa gs) = xa s /\ value (geval None (gnodes gs)) (pt gs) = xt s
+  /\ value (geval None (gnodes gs)) (pl gs) = yl s.
+Proof. exact pipeline_graph. Qed.
+Print Assumptions C03_graph_denotation.
+
+(* end to end with the compiler theorem of C01: for every expression and every order in which the traversal may visit the
+   nodes of its graph, compilation succeeds and the compiled symbol table delivers, at the apply and the train tail,
+   exactly what the expression denotes *)
+Theorem C03_pipeline_compiles : forall e a t sl visit,
+  let gs := build e (gsource a t sl) in let s := den e (source a t sl) in
+  NoDup visit -> (forall i, In i visit -> i < List.length (gnodes gs)) -> List.length visit = List.length (gnodes gs) ->
+  exists tb, bind (compile None (gnodes gs) visit) canon = Some tb
+    /\ delivered tb (gnodes gs) (pa gs) (xa s) /\ delivered tb (gnodes gs) (pt gs) (xt s).
+Proof. exact pipeline_compiles. Qed.
+Print Assumptions C03_pipeline_compiles.
+
+Example C03_graph_witness :
+  let a := OpSpec (Some (Actor 5 0 true)) TSame None in
+  let b := OpSpec (Some (Actor 6 1 true)) TNo (Some (Actor 7 0 false)) in
+  let gs := build (ESeq (EOp a) (EOp b)) (gsource 0 1 2) in
+  List.length (gnodes gs) = 9 /\ compile_ok None (gnodes gs) [8; 0; 7; 1; 6; 2; 5; 3; 4] = true.
+Proof. vm_compute. split; reflexivity. Qed.
 
 Example C03_witness :
   let a := OpSpec (Some (Actor 5 0 true)) TSame None in
